@@ -177,6 +177,8 @@ class Exec(ExprMixin):
             hint = self.contract.locals_ty.get(t.id)
             if hint is not None and v.kind == 'ref' and v.ty is not None and v.ty.kind == hint.kind and v.ty.elem is None:
                 v = SV('ref', v.t, hint)
+            if v.kind in ('ref', 'val', 'int', 'str', 'real'):
+                v = st.name_sv(v)
             st.locals[t.id] = v
             return
         if isinstance(t, (ast.Tuple, ast.List)):
